@@ -1,5 +1,6 @@
 import EtVerif.Props.C02
 import EtVerif.Props.TrC09
+import EtVerif.Props.TrC01
 #print axioms EtVerif.C02.step_den
 #print axioms EtVerif.C02.step_wf
 #print axioms EtVerif.C02.step_mass
@@ -22,3 +23,9 @@ import EtVerif.Props.TrC09
 #print axioms EtVerif.TrC09.clone
 #print axioms EtVerif.TrC09.reset
 #print axioms EtVerif.TrC09.setDim
+-- refinement of the translated basic.Compute (Gen/Translated.lean, regenerated from /repo) to the model
+#print axioms EtVerif.TrC01.compute_refines_ok_partial
+#print axioms EtVerif.TrC01.compute_refines_err_partial
+#print axioms EtVerif.TrC01.compute_refuses_validation
+#print axioms EtVerif.TrC01.compute_schedule
+#print axioms EtVerif.TrC01.compute_default_schedule
